@@ -1,9 +1,9 @@
 import Solvor.Gen.Kernels
 import Solvor.Gen.LubyKernels
 import Solvor.Gen.SatConsts
+import Solvor.Sat.Model
 /-!
-Sat.Cdcl: executable mirror of `solve_sat` (solvor/sat.py, as repaired by the proposed fixes
-C01_level0_persistence, C02_pure_literal_assumptions, C02_degenerate_inputs, C02_luby_loop).
+Sat.Cdcl: executable mirror of `solve_sat` (solvor/sat.py).
 
 Same data structures and the same order of every operation: trail / trail_lim / prop_head,
 two watched literals with in-place swaps inside the clause, binary-implication lists, VSIDS
@@ -11,10 +11,15 @@ activities as IEEE doubles (`Float`, increments and the division by 0.95 bit-ide
 CPython), the `heapq` of `(-activity, var)` entries as a binary heap popping the least entry
 (entries with equal keys are indistinguishable, so any correct priority queue yields the same
 pop sequence), phase saving, Luby restarts through the regenerated `lubyLoop`, `reduce_db` with a
-stable sort, blocking clauses.  `while` loops run on explicit fuel (`for _ in [0:fuel]`).
+stable sort, blocking clauses.
 
-No theorem is stated about this model (DESIGN's [S] items); it serves R_trace: the returned
-status and assignments must equal the implementation's, in order.
+Every `while` loop of the source is a structurally recursive function on explicit fuel.  Running
+out of fuel – and the one internal sanity check `uipOk` on the result of `analyze` – end the run
+with the status `UNBOUNDED` ("FUEL"/"GUARD" in the driver's reply); neither has ever been observed,
+and the correspondence check treats it as an infrastructure failure.  The parts that matter for
+C01 (`assign`, `unassignTo`, `propagate`, the main loop) are written so that `CdclInv.lean` can
+carry the watch/trail invariant through them; `analyze`, the heap and `reduceDb`'s sort are plain
+imperative code.
 -/
 namespace Solvor.Sat.Cdcl
 open Solvor.Gen
@@ -27,61 +32,62 @@ structure Params where
   solutionLimit : Nat
   lubyFactor : Nat
 
+/-! ### the `heapq` of `(-activity, var)` entries -/
+
 /-- heap entries `(-activity, var)` ordered as Python tuples -/
 def entryLt (a b : Float × Nat) : Bool := a.1 < b.1 || (a.1 == b.1 && a.2 < b.2)
 
-def heapPush (h : Array (Float × Nat)) (e : Float × Nat) : Array (Float × Nat) := Id.run do
-  let mut h := h.push e
-  let mut i := h.size - 1
-  for _ in [0:64] do
-    if i == 0 then break
-    let p := (i - 1) / 2
-    if entryLt (h[i]!) (h[p]!) then
-      let t := h[i]!
-      h := h.set! i (h[p]!)
-      h := h.set! p t
-      i := p
-    else break
-  return h
+/-- `_siftdown` of `heapq` (towards the root), at most `fuel` swaps -/
+def siftUp : Nat → Array (Float × Nat) → Nat → Array (Float × Nat)
+  | 0, h, _ => h
+  | fuel + 1, h, i =>
+    if i == 0 then h else
+      let p := (i - 1) / 2
+      if entryLt (h[i]!) (h[p]!) then siftUp fuel (h.swapIfInBounds i p) p else h
+
+def heapPush (h : Array (Float × Nat)) (e : Float × Nat) : Array (Float × Nat) :=
+  let h := h.push e
+  siftUp 64 h (h.size - 1)
+
+/-- the smallest of the entry at `i` and its children (ties keep the parent / the left child) -/
+def siftChild (h : Array (Float × Nat)) (i : Nat) : Nat :=
+  let l := 2 * i + 1
+  let r := 2 * i + 2
+  let m := if l < h.size && entryLt (h[l]!) (h[i]!) then l else i
+  if r < h.size && entryLt (h[r]!) (h[m]!) then r else m
+
+/-- move the entry at `i` down until both children are larger -/
+def siftDown : Nat → Array (Float × Nat) → Nat → Array (Float × Nat)
+  | 0, h, _ => h
+  | fuel + 1, h, i =>
+    let m := siftChild h i
+    if m == i then h else siftDown fuel (h.swapIfInBounds i m) m
 
 def heapPop (h : Array (Float × Nat)) : Option ((Float × Nat) × Array (Float × Nat)) :=
-  if h.size == 0 then none else Id.run do
+  if h.size == 0 then none else
     let top := h[0]!
     let last := h[h.size - 1]!
-    let mut h := h.pop
-    if h.size == 0 then return some (top, h)
-    h := h.set! 0 last
-    let mut i := 0
-    for _ in [0:64] do
-      let l := 2 * i + 1
-      let r := 2 * i + 2
-      let mut m := i
-      if l < h.size && entryLt (h[l]!) (h[m]!) then m := l
-      if r < h.size && entryLt (h[r]!) (h[m]!) then m := r
-      if m == i then break
-      let t := h[i]!
-      h := h.set! i (h[m]!)
-      h := h.set! m t
-      i := m
-    return some (top, h)
+    let h := h.pop
+    if h.size == 0 then some (top, h) else some (top, siftDown 64 (h.set! 0 last) 0)
+
+/-! ### solver state -/
 
 structure St where
   nVars : Nat
   nOrig : Nat
-  assumptions : Array Int
-  clauses : Array (Array Int)      -- original clauses followed by nothing; learned are separate
-  learned : Array (Array Int)
+  assumptions : List Int
+  clauses : Array (Array Int)      -- the input clauses (literals are swapped in place by `propagate`)
+  learned : Array (Array Int)      -- learned and blocking clauses, index `nOrig + j`
   lbd : Array Nat
-  vals : Array Nat
+  nBlocking : Nat
+  vals : Array Nat                 -- 0 = False, 1 = True, 2 = UNDEF
   levels : Array Nat
   reasons : Array Int
   trail : Array Nat
   trailLim : Array Nat
   propHead : Nat
-  watchPos : Array (Array Nat)
-  watchNeg : Array (Array Nat)
-  bigPos : Array (Array (Int × Nat))
-  bigNeg : Array (Array (Int × Nat))
+  watch : Array (Array Nat)         -- `watch_pos[v]` / `watch_neg[v]` at index `litIdx (±v)`
+  big : Array (Array (Int × Nat))   -- `BinaryImplications`: the list consulted when literal `l` becomes false, at `litIdx l`
   activity : Array Float
   activityInc : Float
   heap : Array (Float × Nat)
@@ -91,7 +97,9 @@ structure St where
   propagations : Nat
   conflicts : Nat
   restarts : Nat
-  nBlocking : Nat := 0
+
+/-- one slot per literal: `2·var` for the negative, `2·var + 1` for the positive literal -/
+def litIdx (l : Int) : Nat := 2 * l.natAbs + (if 0 < l then 1 else 0)
 
 def decay : Float := Float.ofBits Solvor.Gen.Sat.vsidsDecay_bits
 
@@ -107,19 +115,22 @@ def litValue (st : St) (l : Int) : Option Bool :=
   let v := st.vals[l.natAbs]!
   if v == UNDEF then none else some ((v == 1) == (decide (0 < l)))
 
+/-- `watch_list(lit)` -/
+def watchOf (st : St) (l : Int) : Array Nat := st.watch[litIdx l]!
+
 def addWatch (st : St) (l : Int) (idx : Nat) : St :=
-  if 0 < l then { st with watchPos := st.watchPos.modify l.natAbs (·.push idx) }
-  else { st with watchNeg := st.watchNeg.modify l.natAbs (·.push idx) }
+  { st with watch := st.watch.modify (litIdx l) (·.push idx) }
+
+/-- `watches[i] = watches[-1]; watches.pop()` on the watch list of `l` -/
+def removeWatchAt (st : St) (l : Int) (i : Nat) : St :=
+  { st with watch := st.watch.modify (litIdx l) (fun w => (w.set! i w.back!).pop) }
 
 /-- `BinaryImplications.add` -/
 def bigAdd (st : St) (a b : Int) (idx : Nat) : St :=
-  let st := if 0 < a then { st with bigNeg := st.bigNeg.modify a.natAbs (·.push (b, idx)) }
-            else { st with bigPos := st.bigPos.modify a.natAbs (·.push (b, idx)) }
-  if 0 < b then { st with bigNeg := st.bigNeg.modify b.natAbs (·.push (a, idx)) }
-  else { st with bigPos := st.bigPos.modify b.natAbs (·.push (a, idx)) }
+  { st with big := (st.big.modify (litIdx a) (·.push (b, idx))).modify (litIdx b) (·.push (a, idx)) }
 
-def implications (st : St) (falseLit : Int) : Array (Int × Nat) :=
-  if 0 < falseLit then st.bigNeg[falseLit.natAbs]! else st.bigPos[falseLit.natAbs]!
+/-- `BinaryImplications.implications(false_lit)` -/
+def implications (st : St) (falseLit : Int) : Array (Int × Nat) := st.big[litIdx falseLit]!
 
 def assign (st : St) (var : Nat) (val : Bool) (reason : Int) : St :=
   { st with propagations := st.propagations + 1
@@ -128,106 +139,150 @@ def assign (st : St) (var : Nat) (val : Bool) (reason : Int) : St :=
             reasons := st.reasons.set! var reason
             trail := st.trail.push var }
 
-def unassignTo (st : St) (level : Nat) : St :=
-  if st.trailLim.size ≤ level then st else Id.run do
-    let target := st.trailLim[level]!
-    let mut st := { st with trailLim := st.trailLim.extract 0 level }
-    for _ in [0:st.trail.size] do
-      if st.trail.size ≤ target then break
-      let var := st.trail.back!
-      st := { st with trail := st.trail.pop
+/-- one iteration of the `while len(trail) > target` loop of `unassign_to` -/
+def popOne (st : St) : St :=
+  let var := st.trail.back!
+  let st := { st with trail := st.trail.pop
                       phase := st.phase.set! var (st.vals[var]! == 1)
                       vals := st.vals.set! var UNDEF }
-      if !st.inHeap[var]! then
-        st := { st with heap := heapPush st.heap (-(st.activity[var]!), var), inHeap := st.inHeap.set! var true }
-    return { st with propHead := st.trail.size }
+  if !st.inHeap[var]! then
+    { st with heap := heapPush st.heap (-(st.activity[var]!), var), inHeap := st.inHeap.set! var true }
+  else st
 
-/-- `propagate()`: returns the state and -1 (no conflict), -2 (assumption conflict) or the index of
-the conflicting clause -/
-def propagate (st : St) : St × Int := Id.run do
-  let mut st := st
-  if st.trailLim.size == 0 then
-    for lit in st.assumptions do
-      let var := lit.natAbs
-      let v := st.vals[var]!
-      if v == UNDEF then
-        st := assign st var (decide (0 < lit)) (-1)
-      else if (v == 1) != (decide (0 < lit)) then
-        return ({ st with conflicts := st.conflicts + 1 }, -2)
-  for _ in [0:st.nVars + 2] do
-    if st.propHead ≥ st.trail.size then break
-    let var := st.trail[st.propHead]!
-    st := { st with propHead := st.propHead + 1 }
-    let falseLit : Int := if st.vals[var]! == 0 then (var : Int) else -(var : Int)
-    for (implied, cidx) in implications st falseLit do
-      let iv := implied.natAbs
-      if st.vals[iv]! == UNDEF then
-        st := assign st iv (decide (0 < implied)) cidx
-      else if (st.vals[iv]! == 1) != (decide (0 < implied)) then
-        return ({ st with conflicts := st.conflicts + 1 }, cidx)
-    -- the watch list of `falseLit` is taken out, edited in place, and put back at the end
-    let fv := falseLit.natAbs
-    let pos := decide (0 < falseLit)
-    let mut watches := if pos then st.watchPos[fv]! else st.watchNeg[fv]!
-    let mut i := 0
-    let mut confl : Int := -1
-    for _ in [0:watches.size + 1] do
-      if i ≥ watches.size then break
-      let cidx := watches[i]!
-      let mut clause := getClause st cidx
-      if clause.size == 1 then
-        confl := cidx
-        break
-      if clause[0]! == falseLit then
-        let t := clause[0]!
-        clause := clause.set! 0 (clause[1]!)
-        clause := clause.set! 1 t
+def popTrail (target : Nat) : Nat → St → St
+  | 0, st => st
+  | fuel + 1, st => if st.trail.size ≤ target then st else popTrail target fuel (popOne st)
+
+def unassignTo (st : St) (level : Nat) : St :=
+  if st.trailLim.size ≤ level then st else
+    let target := st.trailLim[level]!
+    let st := { st with trailLim := st.trailLim.extract 0 level }
+    let st := popTrail target st.trail.size st
+    { st with propHead := st.trail.size }
+
+/-! ### propagate -/
+
+/-- outcome of `propagate()` -/
+inductive PRes where
+  | ok                       -- -1
+  | conflict (idx : Nat)     -- index of the conflicting clause
+  | assumption               -- -2
+  | fuel                     -- a loop of the mirror ran out of fuel (never observed)
+  deriving Repr, DecidableEq, Inhabited
+
+/-- the `for lit in assumptions` loop at decision level 0; `true` = conflicting assumption -/
+def assumeLoop : List Int → St → St × Bool
+  | [], st => (st, false)
+  | lit :: rest, st =>
+    let v := st.vals[lit.natAbs]!
+    if v == UNDEF then assumeLoop rest (assign st lit.natAbs (decide (0 < lit)) (-1))
+    else if (v == 1) != (decide (0 < lit)) then (st, true)
+    else assumeLoop rest st
+
+/-- the `for implied, clause_idx in big.implications(false_lit)` loop -/
+def implLoop : List (Int × Nat) → St → St × Option Nat
+  | [], st => (st, none)
+  | (implied, cidx) :: rest, st =>
+    let v := st.vals[implied.natAbs]!
+    if v == UNDEF then implLoop rest (assign st implied.natAbs (decide (0 < implied)) cidx)
+    else if (v == 1) != (decide (0 < implied)) then (st, some cidx)
+    else implLoop rest st
+
+/-- first `k` in `j, j+1, …` (at most `fuel` of them) with `lit_value(clause[k]) is not False` -/
+def findNonFalse (st : St) (clause : Array Int) : Nat → Nat → Option Nat
+  | 0, _ => none
+  | fuel + 1, j => if litValue st (clause[j]!) != some false then some j else findNonFalse st clause fuel (j + 1)
+
+def swap01 (c : Array Int) : Array Int := c.swapIfInBounds 0 1
+def swap1k (c : Array Int) (k : Nat) : Array Int := c.swapIfInBounds 1 k
+
+/-- `if clause[0] == false_lit: clause[0], clause[1] = clause[1], clause[0]` -/
+def orient (falseLit : Int) (clause : Array Int) : Array Int :=
+  if clause[0]! == falseLit then swap01 clause else clause
+
+/-- store the clause whose second watch was just replaced, drop entry `i` from the watch list of
+`falseLit` (`watches[i] = watches[-1]; watches.pop()`) and watch the new `clause[1]` -/
+def moveWatch (st : St) (falseLit : Int) (i cidx : Nat) (clause : Array Int) : St :=
+  addWatch (removeWatchAt (setClause st cidx clause) falseLit i) (clause[1]!) cidx
+
+/-- one iteration of the `while i < len(watches)` loop over the watch list of `falseLit` (edited in
+place): `inl (st, i)` = go on at position `i`, `inr` = the loop ends -/
+def watchStep (falseLit : Int) (st : St) (i : Nat) : (St × Nat) ⊕ (St × PRes) :=
+  let ws := watchOf st falseLit
+  if i < ws.size then
+    let cidx := ws[i]!
+    let clause := getClause st cidx
+    if clause.size == 1 then .inr (st, .conflict cidx)
+    else
+      let clause := orient falseLit clause
       let firstVal := litValue st (clause[0]!)
-      if firstVal == some true then
-        st := setClause st cidx clause
-        i := i + 1
-        continue
-      let mut found := false
-      for k in [2:clause.size] do
-        if litValue st (clause[k]!) != some false then
-          let t := clause[1]!
-          clause := clause.set! 1 (clause[k]!)
-          clause := clause.set! k t
-          watches := watches.set! i (watches.back!)
-          watches := watches.pop
-          st := setClause st cidx clause
-          -- `add_watch(clause[1], clause_idx)`: a different list than `watches` (that literal is not false)
-          st := addWatch st (clause[1]!) cidx
-          found := true
-          break
-      if found then continue
-      st := setClause st cidx clause
-      if firstVal == some false then
-        confl := cidx
-        break
+      if firstVal == some true then .inl (setClause st cidx clause, i + 1)
       else
-        st := assign st (clause[0]!).natAbs (decide (0 < clause[0]!)) cidx
-      i := i + 1
-    st := if pos then { st with watchPos := st.watchPos.set! fv watches }
-          else { st with watchNeg := st.watchNeg.set! fv watches }
-    if confl ≥ 0 then
-      return ({ st with conflicts := st.conflicts + 1 }, confl)
-  return (st, -1)
+        match findNonFalse st clause (clause.size - 2) 2 with
+        | some k =>
+          .inl (moveWatch st falseLit i cidx (swap1k clause k), i)
+        | none =>
+          let st := setClause st cidx clause
+          if firstVal == some false then .inr (st, .conflict cidx)
+          else .inl (assign st (clause[0]!).natAbs (decide (0 < clause[0]!)) cidx, i + 1)
+  else .inr (st, .ok)
 
-def bumpActivity (st : St) (var : Nat) : St :=
-  let a := st.activity[var]! + st.activityInc
-  let st := { st with activity := st.activity.set! var a }
-  if st.inHeap[var]! then { st with heap := heapPush st.heap (-a, var) } else st
+def watchLoop (falseLit : Int) : Nat → St → Nat → St × PRes
+  | 0, st, _ => (st, .fuel)
+  | fuel + 1, st, i =>
+    match watchStep falseLit st i with
+    | .inl (st, i) => watchLoop falseLit fuel st i
+    | .inr r => r
 
-/-- insertion sort, descending, of a duplicate-free list of levels (`sorted(lvl_set, reverse=True)`) -/
+/-- one iteration of the `while prop_head < len(trail)` loop: `inl` = go on, `inr` = the loop ends -/
+def propStep (st : St) : St ⊕ (St × PRes) :=
+  if st.propHead ≥ st.trail.size then .inr (st, .ok) else
+    let var := st.trail[st.propHead]!
+    let st := { st with propHead := st.propHead + 1 }
+    let falseLit : Int := if st.vals[var]! == 0 then (var : Int) else -(var : Int)
+    match implLoop (implications st falseLit).toList st with
+    | (st, some cidx) => .inr ({ st with conflicts := st.conflicts + 1 }, .conflict cidx)
+    | (st, none) =>
+      match watchLoop falseLit ((watchOf st falseLit).size + 1) st 0 with
+      | (st, .ok) => .inl st
+      | (st, .conflict cidx) => .inr ({ st with conflicts := st.conflicts + 1 }, .conflict cidx)
+      | (st, r) => .inr (st, r)
+
+/-- the `while prop_head < len(trail)` loop -/
+def propLoop : Nat → St → St × PRes
+  | 0, st => (st, .fuel)
+  | fuel + 1, st =>
+    match propStep st with
+    | .inl st => propLoop fuel st
+    | .inr r => r
+
+/-- `propagate()` -/
+def propagate (st : St) : St × PRes :=
+  let (st, bad) := if st.trailLim.size == 0 then assumeLoop st.assumptions st else (st, false)
+  if bad then ({ st with conflicts := st.conflicts + 1 }, .assumption)
+  else propLoop (st.nVars + 2) st
+
+/-! ### conflict analysis (plain imperative code: touches only activities and the heap) -/
+
 def sortDesc (xs : List Nat) : List Nat := (xs.mergeSort (fun a b => decide (b ≤ a)))
 
-/-- `analyze(conflict_idx)` for `conflict_idx ≥ 0`: (state, learned clause or none, backjump level, lbd) -/
-def analyze (st : St) (conflictIdx : Nat) : St × Option (Array Int) × Nat × Nat := Id.run do
+structure Analysis where
+  /-- the variables whose activity is bumped, in the order `bump_activity` is called -/
+  bumps : Array Nat
+  /-- the resolution steps taken: (index of the antecedent clause, its true literal = the pivot) -/
+  steps : Array (Nat × Int)
+  learned : Option (Array Int)
+  btLevel : Nat
+  lbd : Nat
+
+/-- `analyze(conflict_idx)` for `conflict_idx ≥ 0` (reads the state, changes nothing: the activity
+bumps are returned as a list and applied by `applyBumps`) -/
+def analyze (st : St) (conflictIdx : Nat) : Analysis := Id.run do
   let clause := getClause st conflictIdx
   let currentLevel := st.trailLim.size
-  if currentLevel == 0 then return (st, none, 0, 0)
-  let mut st := st
+  if currentLevel == 0 then return ⟨#[], #[], none, 0, 0⟩
+  let mut bumps : Array Nat := #[]
+  let mut steps : Array (Nat × Int) := #[]
   let mut seen : Array Bool := Array.replicate (st.nVars + 1) false
   let mut learnedLits : Array Int := #[]
   let mut counter : Nat := 0
@@ -236,7 +291,7 @@ def analyze (st : St) (conflictIdx : Nat) : St × Option (Array Int) × Nat × N
     let var := lit.natAbs
     if seen[var]! || st.vals[var]! == UNDEF then continue
     seen := seen.set! var true
-    st := bumpActivity st var
+    bumps := bumps.push var
     if st.levels[var]! == currentLevel then counter := counter + 1
     else learnedLits := learnedLits.push (if (st.vals[var]! == 1) == (decide (0 < lit)) then -lit else lit)
   let mut trailIdx : Int := (st.trail.size : Int) - 1
@@ -255,16 +310,16 @@ def analyze (st : St) (conflictIdx : Nat) : St × Option (Array Int) × Nat × N
         break
       let reasonIdx := st.reasons[var]!
       if reasonIdx ≥ 0 then
+        steps := steps.push (reasonIdx.toNat, if st.vals[var]! == 0 then -(var : Int) else (var : Int))
         for lit in getClause st reasonIdx.toNat do
           if lit.natAbs != var then
             let v2 := lit.natAbs
             if seen[v2]! || st.vals[v2]! == UNDEF then continue
             seen := seen.set! v2 true
-            st := bumpActivity st v2
+            bumps := bumps.push v2
             if st.levels[v2]! == currentLevel then counter := counter + 1
             else learnedLits := learnedLits.push (if (st.vals[v2]! == 1) == (decide (0 < lit)) then -lit else lit)
-  st := { st with activityInc := st.activityInc / decay }
-  if learnedLits.size == 0 then return (st, none, 0, 0)
+  if learnedLits.size == 0 then return ⟨bumps, steps, none, 0, 0⟩
   let mut lvlSet : List Nat := []
   for lit in learnedLits do
     if st.vals[lit.natAbs]! != UNDEF then
@@ -274,47 +329,92 @@ def analyze (st : St) (conflictIdx : Nat) : St × Option (Array Int) × Nat × N
   let bt := match lvls with
     | _ :: b :: _ => b
     | _ => 0
-  return (st, some learnedLits, bt, lvlSet.length)
+  return ⟨bumps, steps, some learnedLits, bt, lvlSet.length⟩
 
-def pickVar (st : St) : St × Nat := Id.run do
-  let mut st := st
-  for _ in [0:st.heap.size + 1] do
+/-- `bump_activity(var)` -/
+def bumpOne (st : St) (var : Nat) : St :=
+  let a := st.activity[var]! + st.activityInc
+  let st := { st with activity := st.activity.set! var a }
+  if st.inHeap[var]! then { st with heap := heapPush st.heap (-a, var) } else st
+
+/-- `bump_activity(var)` for each bumped variable, in order, then `decay_activity()` -/
+def applyBumps (st : St) (bumps : List Nat) : St :=
+  let st := bumps.foldl bumpOne st
+  { st with activityInc := st.activityInc / decay }
+
+/-- sanity check on the result of `analyze` (always true in a correct 1-UIP analysis; the mirror
+gives up with status `UNBOUNDED` otherwise): the asserted literal's variable sits on the current
+decision level and the backjump level is below it, so that variable is unassigned after the
+backjump. -/
+def uipOk (st : St) (lc : Array Int) (bt : Nat) : Bool :=
+  lc.size > 0 && st.vals[(lc[0]!).natAbs]! != UNDEF && st.levels[(lc[0]!).natAbs]! == st.trailLim.size
+    && bt < st.trailLim.size
+
+/-- further sanity checks on `analyze` (same status as `uipOk`): no literal 0 in the learned clause,
+no variable 0 among the bumped ones -/
+def analysisOk (A : Analysis) : Bool :=
+  A.bumps.toList.all (fun v => decide (1 ≤ v)) &&
+    (match A.learned with | some lc => lc.toList.all (· != 0) | none => true)
+
+/-- certificate check for a learned clause (same status as `uipOk`): every clause index used is in
+range, no pivot is 0, and the resolution chain – conflict clause resolved in turn with the logged
+antecedents (`Sat.chain`) – yields only literals of the learned clause; by `learn_chain_sound` the
+learned clause is then entailed by the clause database -/
+def chainOk (st : St) (conflictIdx : Nat) (steps : Array (Nat × Int)) (lc : Array Int) : Bool :=
+  let inRange := fun (i : Nat) => decide (i < st.nOrig + st.learned.size)
+  inRange conflictIdx && steps.toList.all (fun s => inRange s.1 && s.2 != 0) &&
+    (Solvor.Sat.chain (getClause st conflictIdx).toList
+      (steps.toList.map fun s => ((getClause st s.1).toList, s.2))).all (fun l => lc.toList.contains l)
+
+/-- certificate check before INFEASIBLE is reported (the mirror gives up with `GUARD` otherwise): unit
+propagation from scratch refutes the input clauses + the assumptions as unit clauses + (when pure
+literals were fixed) the pure literals as unit clauses + every clause learned so far -/
+def certify (st : St) (usePure : Bool) (ever : Array (Array Int)) : Bool :=
+  let f : List (List Int) := st.clauses.toList.map (·.toList)
+  Solvor.Sat.upRefutes st.nVars (f ++ st.assumptions.map (fun a => [a]) ++
+    (if usePure then (Solvor.Sat.pureUnits f st.assumptions st.nVars).map (fun p => [p]) else []) ++
+    ever.toList.map (·.toList))
+
+/-- the `while var_heap` loop of `pick_var` -/
+def pickLoop : Nat → St → St × Nat
+  | 0, st => (st, 0)
+  | fuel + 1, st =>
     match heapPop st.heap with
-    | none => break
+    | none => (st, 0)
     | some ((_, var), h) =>
-      st := { st with heap := h, inHeap := st.inHeap.set! var false }
-      if st.vals[var]! == UNDEF then return (st, var)
-  return (st, 0)
+      let st := { st with heap := h, inHeap := st.inHeap.set! var false }
+      if st.vals[var]! == UNDEF then (st, var) else pickLoop fuel st
+
+def pickVar (st : St) : St × Nat := pickLoop (st.heap.size + 1) st
+
+/-- re-attach the kept learned clauses (`for i, clause in enumerate(learned)` of `reduce_db`) -/
+def reattach (no : Nat) (keep : Array (Array Int)) : Nat → Nat → St → St
+  | 0, _, st => st
+  | fuel + 1, j, st =>
+    let c := keep[j]!
+    let ci := no + j
+    let st := if c.size == 2 then bigAdd st (c[0]!) (c[1]!) ci
+      else if c.size > 2 then addWatch (addWatch st (c[0]!) ci) (c[1]!) ci
+      else st
+    reattach no keep fuel (j + 1) st
 
 def reduceDb (st : St) : St :=
-  if ((st.learned.size - st.nBlocking : Nat) : Int) < Solvor.Gen.Sat.reduceDbThreshold then st else Id.run do
+  if ((st.learned.size - st.nBlocking : Nat) : Int) < Solvor.Gen.Sat.reduceDbThreshold then st else
     let n := st.learned.size
     let idx := (List.range n).mergeSort fun a b =>
       let ka := (st.lbd[a]!, (st.learned[a]!).size)
       let kb := (st.lbd[b]!, (st.learned[b]!).size)
       decide (ka.1 < kb.1 ∨ (ka.1 = kb.1 ∧ ka.2 ≤ kb.2))
-    let mut keep : Array (Array Int) := #[]
-    let mut keepLbd : Array Nat := #[]
-    let mut i := 0
-    for orig in idx do
-      if i < n / 2 || (st.lbd[orig]! : Int) ≤ Solvor.Gen.Sat.reduceDbKeepLbd then
-        keep := keep.push (st.learned[orig]!)
-        keepLbd := keepLbd.push (st.lbd[orig]!)
-      i := i + 1
+    let kept := (idx.zipIdx).filter fun (orig, i) => i < n / 2 || (st.lbd[orig]! : Int) ≤ Solvor.Gen.Sat.reduceDbKeepLbd
+    let keep : Array (Array Int) := (kept.map fun (orig, _) => st.learned[orig]!).toArray
+    let keepLbd : Array Nat := (kept.map fun (orig, _) => st.lbd[orig]!).toArray
     let no := st.nOrig
-    let mut st := { st with learned := keep, lbd := keepLbd
-                            watchPos := st.watchPos.map (·.filter (· < no))
-                            watchNeg := st.watchNeg.map (·.filter (· < no))
-                            bigPos := st.bigPos.map (·.filter (·.2 < no))
-                            bigNeg := st.bigNeg.map (·.filter (·.2 < no)) }
-    for j in [0:keep.size] do
-      let c := keep[j]!
-      let ci := no + j
-      if c.size == 2 then st := bigAdd st (c[0]!) (c[1]!) ci
-      else if c.size > 2 then
-        st := addWatch st (c[0]!) ci
-        st := addWatch st (c[1]!) ci
-    return st
+    let st := { st with learned := keep, lbd := keepLbd
+                        watch := st.watch.map (·.filter (· < no))
+                        big := st.big.map (·.filter (·.2 < no)) }
+    reattach no keep keep.size 0 st
+
+/-! ### the main loop -/
 
 structure Out where
   status : Status
@@ -329,156 +429,224 @@ structure Out where
   fuel : Nat
   /-- the first learned / blocking clauses in the order they were added (`true` = blocking) -/
   log : Array (Bool × Array Int) := #[]
+  /-- why the mirror gave up when `status = UNBOUNDED`: "FUEL" or "GUARD" -/
+  note : String := ""
 
 def luby (i : Nat) : Nat := lubyLoop (2 * i + 2) i lubyK0
 
-def mkOut (st : St) (status : Status) (sol : Option (List (Nat × Bool)))
-    (sols : Option (List (List (Nat × Bool)))) (lt it fuel : Nat) : Out :=
-  { status := status, solution := sol, solutions := sols, decisions := st.decisions, propagations := st.propagations,
-    conflicts := st.conflicts, restarts := st.restarts, learnedTotal := lt, iterations := it, fuel := fuel }
+/-- everything the `while True` loop of `solve_sat` carries from one iteration to the next -/
+structure Loop where
+  st : St
+  conflict : PRes
+  decLevel : Nat
+  sinceRestart : Nat
+  lubyIdx : Nat
+  nextRestart : Nat
+  all : Array (List (Nat × Bool))
+  learnedTotal : Nat
+  iters : Nat
+  log : Array (Bool × Array Int)
+  /-- every clause learned so far (blocking clauses excluded), as learned -/
+  ever : Array (Array Int) := #[]
+
+def mkOut (L : Loop) (status : Status) (sol : Option (List (Nat × Bool)))
+    (sols : Option (List (List (Nat × Bool)))) (fuel : Nat) (note : String := "") : Out :=
+  { status := status, solution := sol, solutions := sols, decisions := L.st.decisions,
+    propagations := L.st.propagations, conflicts := L.st.conflicts, restarts := L.st.restarts,
+    learnedTotal := L.learnedTotal, iterations := L.iters, fuel := fuel, log := L.log, note := note }
 
 /-- the three "give up / finished enumerating" exits share this shape -/
-def finish (st : St) (all : Array (List (Nat × Bool))) (status : Status) (lt it fuel : Nat) : Out :=
-  if all.size > 0 then mkOut st status (some all[0]!) (some all.toList) lt it fuel
-  else mkOut st status none none lt it fuel
+def finish (L : Loop) (status : Status) (fuel : Nat) : Out :=
+  if L.all.size > 0 then mkOut L status (some L.all[0]!) (some L.all.toList) fuel
+  else mkOut L status none none fuel
 
-def solve (clausesIn : List (List Int)) (assumptionsIn : List Int) (P : Params) : Out := Id.run do
-  let empty : St := ⟨0, 0, #[], #[], #[], #[], #[], #[], #[], #[], #[], 0, #[], #[], #[], #[], #[], 1.0, #[], #[], #[], 0, 0, 0, 0, 0⟩
-  if clausesIn.isEmpty && assumptionsIn.isEmpty then
-    return mkOut empty .OPTIMAL (some []) none 0 0 0
-  let clauses : Array (Array Int) := (clausesIn.map List.toArray).toArray
-  let mut nVars := 0
-  for c in clauses do
-    for l in c do nVars := max nVars l.natAbs
-  for l in assumptionsIn do nVars := max nVars l.natAbs
-  if nVars == 0 then return mkOut empty .OPTIMAL (some []) none 0 0 0
-  let n1 := nVars + 1
-  let mut st : St := {
-    nVars := nVars, nOrig := clauses.size, assumptions := assumptionsIn.toArray, clauses := clauses,
-    learned := #[], lbd := #[], vals := Array.replicate n1 UNDEF, levels := Array.replicate n1 0,
-    reasons := Array.replicate n1 (-1), trail := #[], trailLim := #[], propHead := 0,
-    watchPos := Array.replicate n1 #[], watchNeg := Array.replicate n1 #[],
-    bigPos := Array.replicate n1 #[], bigNeg := Array.replicate n1 #[],
-    activity := Array.replicate n1 0.0, activityInc := 1.0,
-    heap := #[], inHeap := Array.replicate n1 true, phase := Array.replicate n1 true,
-    decisions := 0, propagations := 0, conflicts := 0, restarts := 0 }
-  for v in [1:n1] do
-    st := { st with heap := heapPush st.heap (-(0.0 : Float), v) }
-  -- clause database
-  let mut units : Array (Int × Nat) := #[]
-  for i in [0:clauses.size] do
-    let c := clauses[i]!
-    if c.size == 0 then return mkOut { st with propagations := 0 } .INFEASIBLE none none 0 0 0
-    else if c.size == 1 then units := units.push (c[0]!, i)
-    else if c.size == 2 then st := bigAdd st (c[0]!) (c[1]!) i
-    else
-      st := addWatch st (c[0]!) i
-      st := addWatch st (c[1]!) i
-  -- pure literals (single-solution mode only), assumptions counted
-  if P.solutionLimit ≤ 1 then
-    let mut posC : Array Nat := Array.replicate n1 0
-    let mut negC : Array Nat := Array.replicate n1 0
-    for c in clauses do
-      for l in c do
-        if 0 < l then posC := posC.modify l.natAbs (· + 1) else negC := negC.modify l.natAbs (· + 1)
-    for l in assumptionsIn do
-      if 0 < l then posC := posC.modify l.natAbs (· + 1) else negC := negC.modify l.natAbs (· + 1)
-    for v in [1:n1] do
-      if posC[v]! > 0 && negC[v]! == 0 then
-        if st.vals[v]! == UNDEF then st := assign st v true (-1)
-      else if negC[v]! > 0 && posC[v]! == 0 then
-        if st.vals[v]! == UNDEF then st := assign st v false (-1)
-  for (lit, idx) in units do
-    let var := lit.natAbs
-    let val := decide (0 < lit)
-    if st.vals[var]! == UNDEF then st := assign st var val idx
-    else if (st.vals[var]! == 1) != val then return mkOut { st with propagations := 0 } .INFEASIBLE none none 0 0 0
-  let (st0, c0) := propagate st
-  st := st0
-  let mut conflict : Int := c0
-  if conflict ≥ 0 then return mkOut st .INFEASIBLE none none 0 0 0
-  let mut decLevel : Nat := 0
-  let mut sinceRestart : Nat := 0
-  let mut lubyIdx : Nat := 1
-  let mut nextRestart : Nat := P.lubyFactor * luby lubyIdx
-  let mut all : Array (List (Nat × Bool)) := #[]
-  let mut learnedTotal : Nat := 0
-  let mut iters : Nat := 0
-  let mut log : Array (Bool × Array Int) := #[]
-  let fuel := (P.maxConflicts + P.solutionLimit + 2) * (nVars + 2) * 2 + 64
-  for _ in [0:fuel] do
-    iters := iters + 1
-    if conflict ≥ 0 || conflict == -2 then
-      if decLevel == 0 || conflict == -2 then
-        return { finish st all (if all.size > 0 then .OPTIMAL else .INFEASIBLE) learnedTotal iters fuel with log := log }
-      let (st1, lc, bt, lbdv) := analyze st conflict.toNat
-      st := st1
-      match lc with
-      | none => return { finish st all (if all.size > 0 then .OPTIMAL else .INFEASIBLE) learnedTotal iters fuel with log := log }
-      | some lc =>
-        st := unassignTo st bt
-        decLevel := bt
-        let cidx := st.nOrig + st.learned.size
-        st := { st with learned := st.learned.push lc, lbd := st.lbd.push lbdv }
-        learnedTotal := learnedTotal + 1
-        if log.size < 48 then log := log.push (false, lc)
-        if lc.size == 2 then st := bigAdd st (lc[0]!) (lc[1]!) cidx
-        else if lc.size > 2 then
-          st := addWatch st (lc[0]!) cidx
-          st := addWatch st (lc[1]!) cidx
-        st := assign st (lc[0]!).natAbs (decide (0 < lc[0]!)) cidx
-        sinceRestart := sinceRestart + 1
-        if sinceRestart ≥ nextRestart then
-          if st.restarts ≥ P.maxRestarts then
-            return { finish st all .MAX_ITER learnedTotal iters fuel with log := log }
-          st := { st with restarts := st.restarts + 1 }
-          lubyIdx := lubyIdx + 1
-          nextRestart := P.lubyFactor * luby lubyIdx
-          sinceRestart := 0
-          st := unassignTo st 0
-          decLevel := 0
-          st := reduceDb st
-        let (st2, c2) := propagate st
-        st := st2
-        conflict := c2
-        continue
-    let (st3, var) := pickVar st
-    st := st3
-    if var == 0 then
-      let sol : List (Nat × Bool) := (List.range' 1 nVars).filterMap fun v =>
-        if st.vals[v]! != UNDEF then some (v, st.vals[v]! == 1) else none
-      all := all.push sol
-      if all.size ≥ P.solutionLimit then
-        if P.solutionLimit == 1 then return { mkOut st .OPTIMAL (some sol) none learnedTotal iters fuel with log := log }
-        return { mkOut st .OPTIMAL (some sol) (some all.toList) learnedTotal iters fuel with log := log }
-      let blocking : Array Int := ((List.range' 1 nVars).filterMap fun (v : Nat) =>
-        if st.levels[v]! > 0 then some (if st.vals[v]! == 1 then -(Int.ofNat v) else Int.ofNat v) else none).toArray
-      if blocking.size == 0 then
-        return { finish st all .OPTIMAL learnedTotal iters fuel with log := log }
-      let cidx := st.nOrig + st.learned.size
-      st := { st with learned := st.learned.push blocking, lbd := st.lbd.push 0, nBlocking := st.nBlocking + 1 }
-      if log.size < 48 then log := log.push (true, blocking)
-      st := unassignTo st 0
-      decLevel := 0
-      if blocking.size == 1 then st := assign st (blocking[0]!).natAbs (decide (0 < blocking[0]!)) cidx
-      else if blocking.size == 2 then st := bigAdd st (blocking[0]!) (blocking[1]!) cidx
+def giveUp (L : Loop) (fuel : Nat) (note : String) : Out := mkOut L .UNBOUNDED none none fuel note
+
+/-- the "no (more) solutions" exit: the solutions found so far, or INFEASIBLE – certified – if none -/
+def finishInf (usePure : Bool) (L : Loop) (fuel : Nat) : Out :=
+  if L.all.size > 0 then mkOut L .OPTIMAL (some L.all[0]!) (some L.all.toList) fuel
+  else if certify L.st usePure L.ever then mkOut L .INFEASIBLE none none fuel
+  else giveUp L fuel "GUARD"
+
+/-- the assignment read off `vals` (`{v: vals[v] == 1 for v in 1..n_vars if vals[v] != UNDEF}`) -/
+def readSol (st : St) : List (Nat × Bool) :=
+  (List.range' 1 st.nVars).filterMap fun v =>
+    if st.vals[v]! != UNDEF then some (v, st.vals[v]! == 1) else none
+
+def blockingOf (st : St) : Array Int :=
+  ((List.range' 1 st.nVars).filterMap fun (v : Nat) =>
+    if st.levels[v]! > 0 then some (if st.vals[v]! == 1 then -(Int.ofNat v) else Int.ofNat v) else none).toArray
+
+/-- attach a clause that was just appended to `learned` at index `cidx` -/
+def attach (st : St) (c : Array Int) (cidx : Nat) : St :=
+  if c.size == 2 then bigAdd st (c[0]!) (c[1]!) cidx
+  else if c.size > 2 then addWatch (addWatch st (c[0]!) cidx) (c[1]!) cidx
+  else st
+
+/-- backjump to `bt`, store the learned clause `lc`, attach it and assert its first literal -/
+def learnAndJump (st : St) (lc : Array Int) (bt lbd : Nat) : St :=
+  let st := unassignTo st bt
+  let cidx := st.nOrig + st.learned.size
+  let st := { st with learned := st.learned.push lc, lbd := st.lbd.push lbd }
+  let st := attach st lc cidx
+  assign st (lc[0]!).natAbs (decide (0 < lc[0]!)) cidx
+
+/-- `restarts += 1; unassign_to(0); reduce_db()` -/
+def restartSt (st : St) : St :=
+  reduceDb (unassignTo { st with restarts := st.restarts + 1 } 0)
+
+/-- store the blocking clause, go back to level 0 and attach it (a unit blocking clause is asserted) -/
+def blockSt (st : St) (blocking : Array Int) : St :=
+  let cidx := st.nOrig + st.learned.size
+  let st := { st with learned := st.learned.push blocking, lbd := st.lbd.push 0, nBlocking := st.nBlocking + 1 }
+  let st := unassignTo st 0
+  if blocking.size == 1 then assign st (blocking[0]!).natAbs (decide (0 < blocking[0]!)) cidx
+  else attach st blocking cidx
+
+/-- `decisions += 1; trail_lim.append(len(trail)); assign(var, phase[var], -1)` -/
+def decideSt (st : St) (var : Nat) : St :=
+  let st := { st with decisions := st.decisions + 1, trailLim := st.trailLim.push st.trail.size }
+  assign st var (st.phase[var]!) (-1)
+
+/-- one iteration of `while True:`; `inl` = the call returns -/
+def step (P : Params) (fuel : Nat) (L : Loop) : Out ⊕ Loop :=
+  let L := { L with iters := L.iters + 1 }
+  match L.conflict with
+  | .fuel => .inl (giveUp L fuel "FUEL")
+  | .assumption => .inl (finishInf (P.solutionLimit ≤ 1) L fuel)
+  | .conflict cidx0 =>
+    if L.decLevel == 0 then .inl (finishInf (P.solutionLimit ≤ 1) L fuel) else
+    let A := analyze L.st cidx0
+    if !analysisOk A then .inl (giveUp L fuel "GUARD") else
+    let st := if L.st.trailLim.size == 0 then L.st else applyBumps L.st A.bumps.toList
+    match A.learned with
+    | none => .inl (finishInf (P.solutionLimit ≤ 1) { L with st := st } fuel)
+    | some lc =>
+      if !uipOk st lc A.btLevel then .inl (giveUp { L with st := st } fuel "GUARD") else
+      if !chainOk st cidx0 A.steps lc then .inl (giveUp { L with st := st } fuel "GUARD") else
+      let st := learnAndJump st lc A.btLevel A.lbd
+      let log := if L.log.size < 48 then L.log.push (false, lc) else L.log
+      let L := { L with st := st, decLevel := A.btLevel, learnedTotal := L.learnedTotal + 1, log := log,
+                        sinceRestart := L.sinceRestart + 1, ever := L.ever.push lc }
+      if L.sinceRestart ≥ L.nextRestart then
+        if st.restarts ≥ P.maxRestarts then .inl (finish L .MAX_ITER fuel) else
+        let lubyIdx := L.lubyIdx + 1
+        let (st, c) := propagate (restartSt st)
+        .inr { L with st := st, conflict := c, lubyIdx := lubyIdx, nextRestart := P.lubyFactor * luby lubyIdx,
+                      sinceRestart := 0, decLevel := 0 }
       else
-        st := addWatch st (blocking[0]!) cidx
-        st := addWatch st (blocking[1]!) cidx
-      let (st4, c4) := propagate st
-      st := st4
-      conflict := c4
-      continue
-    st := { st with decisions := st.decisions + 1 }
-    decLevel := decLevel + 1
-    st := { st with trailLim := st.trailLim.push st.trail.size }
-    st := assign st var (st.phase[var]!) (-1)
-    let (st5, c5) := propagate st
-    st := st5
-    conflict := c5
-    if st.conflicts ≥ P.maxConflicts then
-      return { finish st all .MAX_ITER learnedTotal iters fuel with log := log }
-  -- fuel exhausted (never observed; reported by the driver as status "FUEL")
-  return mkOut st .UNBOUNDED none none learnedTotal iters fuel
+        let (st, c) := propagate st
+        .inr { L with st := st, conflict := c }
+  | .ok =>
+    let (st, var) := pickVar L.st
+    let L := { L with st := st }
+    if var == 0 then
+      let sol := readSol st
+      let L := { L with all := L.all.push sol }
+      if L.all.size ≥ P.solutionLimit then
+        if P.solutionLimit == 1 then .inl (mkOut L .OPTIMAL (some sol) none fuel)
+        else .inl (mkOut L .OPTIMAL (some sol) (some L.all.toList) fuel)
+      else
+        let blocking := blockingOf st
+        if blocking.size == 0 then .inl (finish L .OPTIMAL fuel) else
+        let log := if L.log.size < 48 then L.log.push (true, blocking) else L.log
+        let (st, c) := propagate (blockSt st blocking)
+        .inr { L with st := st, conflict := c, decLevel := 0, log := log }
+    else
+      let (st, c) := propagate (decideSt st var)
+      let L := { L with st := st, conflict := c, decLevel := L.decLevel + 1 }
+      if st.conflicts ≥ P.maxConflicts then .inl (finish L .MAX_ITER fuel) else .inr L
+
+def run (P : Params) (fuel0 : Nat) : Nat → Loop → Out
+  | 0, L => giveUp L fuel0 "FUEL"
+  | fuel + 1, L =>
+    match step P fuel0 L with
+    | .inl o => o
+    | .inr L' => run P fuel0 fuel L'
+
+/-- largest variable index in clauses and assumptions -/
+def countVars (clauses : List (List Int)) (assumptions : List Int) : Nat :=
+  (clauses.foldl (fun n c => c.foldl (fun n l => max n l.natAbs) n) 0) |> fun n => assumptions.foldl (fun n l => max n l.natAbs) n
+
+def emptySt : St := ⟨0, 0, [], #[], #[], #[], 0, #[], #[], #[], #[], #[], 0, #[], #[], #[], 1.0, #[], #[], #[], 0, 0, 0, 0⟩
+
+def initSt (clauses : List (List Int)) (assumptions : List Int) (nVars : Nat) : St :=
+  let n1 := nVars + 1
+  { nVars := nVars, nOrig := clauses.length, assumptions := assumptions,
+    clauses := (clauses.map List.toArray).toArray,
+    learned := #[], lbd := #[], nBlocking := 0, vals := Array.replicate n1 UNDEF, levels := Array.replicate n1 0,
+    reasons := Array.replicate n1 (-1), trail := #[], trailLim := #[], propHead := 0,
+    watch := Array.replicate (2 * n1) #[], big := Array.replicate (2 * n1) #[],
+    activity := Array.replicate n1 0.0, activityInc := 1.0,
+    heap := (List.range' 1 nVars).foldl (fun h v => heapPush h (-(0.0 : Float), v)) #[],
+    inHeap := Array.replicate n1 true, phase := Array.replicate n1 true,
+    decisions := 0, propagations := 0, conflicts := 0, restarts := 0 }
+
+/-- the clause-database loop: `none` = an empty clause was met; otherwise the state and the unit
+clauses `(lit, idx)` in input order -/
+def loadClauses : List (List Int) → Nat → St → List (Int × Nat) → Option (St × List (Int × Nat))
+  | [], _, st, units => some (st, units.reverse)
+  | c :: rest, i, st, units =>
+    match c with
+    | [] => none
+    | [a] => loadClauses rest (i + 1) st ((a, i) :: units)
+    | [a, b] => loadClauses rest (i + 1) (bigAdd st a b i) units
+    | a :: b :: _ => loadClauses rest (i + 1) (addWatch (addWatch st a i) b i) units
+
+/-- the occurrence counts of `find_pure_literals()`: assumptions count as unit clauses -/
+def pureCounts (nVars : Nat) (clauses : List (List Int)) (assumptions : List Int) : Array Nat × Array Nat := Id.run do
+  let n1 := nVars + 1
+  let mut posC : Array Nat := Array.replicate n1 0
+  let mut negC : Array Nat := Array.replicate n1 0
+  for c in clauses do
+    for l in c do
+      if 0 < l then posC := posC.modify l.natAbs (· + 1) else negC := negC.modify l.natAbs (· + 1)
+  for l in assumptions do
+    if 0 < l then posC := posC.modify l.natAbs (· + 1) else negC := negC.modify l.natAbs (· + 1)
+  return (posC, negC)
+
+/-- `find_pure_literals()` -/
+def pureList (nVars : Nat) (clauses : List (List Int)) (assumptions : List Int) : List (Nat × Bool) :=
+  let (posC, negC) := pureCounts nVars clauses assumptions
+  (List.range' 1 nVars).filterMap fun v =>
+    if posC[v]! > 0 && negC[v]! == 0 then some (v, true)
+    else if negC[v]! > 0 && posC[v]! == 0 then some (v, false) else none
+
+/-- `for var, val in find_pure_literals(): if vals[var] == UNDEF: assign(var, val, -1)` -/
+def pureLits (st : St) (clauses : List (List Int)) (assumptions : List Int) : St :=
+  (pureList st.nVars clauses assumptions).foldl
+    (fun st (p : Nat × Bool) => if st.vals[p.1]! == UNDEF then assign st p.1 p.2 (-1) else st) st
+
+/-- the unit-clause loop: `none` = two unit clauses clash -/
+def loadUnits : List (Int × Nat) → St → Option St
+  | [], st => some st
+  | (lit, idx) :: rest, st =>
+    if st.vals[lit.natAbs]! == UNDEF then loadUnits rest (assign st lit.natAbs (decide (0 < lit)) idx)
+    else if (st.vals[lit.natAbs]! == 1) != (decide (0 < lit)) then none
+    else loadUnits rest st
+
+def emptyLoop (st : St) : Loop := ⟨st, .ok, 0, 0, 1, 0, #[], 0, 0, #[], #[]⟩
+
+def solve (clausesIn : List (List Int)) (assumptionsIn : List Int) (P : Params) : Out :=
+  if clausesIn.isEmpty && assumptionsIn.isEmpty then
+    mkOut (emptyLoop emptySt) .OPTIMAL (some []) none 0
+  else
+  let nVars := countVars clausesIn assumptionsIn
+  if nVars == 0 then mkOut (emptyLoop emptySt) .OPTIMAL (some []) none 0 else
+  let st := initSt clausesIn assumptionsIn nVars
+  match loadClauses clausesIn 0 st [] with
+  | none => finishInf (P.solutionLimit ≤ 1) (emptyLoop { st with propagations := 0 }) 0
+  | some (st, units) =>
+    let st := if P.solutionLimit ≤ 1 then pureLits st clausesIn assumptionsIn else st
+    match loadUnits units st with
+    | none => finishInf (P.solutionLimit ≤ 1) (emptyLoop { st with decisions := 0, propagations := 0 }) 0
+    | some st =>
+      let (st, c0) := propagate st
+      match c0 with
+      | .conflict _ => finishInf (P.solutionLimit ≤ 1) (emptyLoop st) 0
+      | _ =>
+        let fuel := (P.maxConflicts + P.solutionLimit + 2) * (nVars + 2) * 2 + 64
+        let L : Loop := { emptyLoop st with conflict := c0, nextRestart := P.lubyFactor * luby 1 }
+        run P fuel fuel L
 
 end Solvor.Sat.Cdcl
